@@ -9,7 +9,7 @@
     [outs_match]: the outputs agree pointwise (All up to permutation) and no model output is a
     failure ([RFail]: Panic or Hang). *)
 From Coq Require Import List NArith Permutation.
-From Algo.C02 Require Import Model Spec ProofsChain ProofsLinear ProofsQuad.
+From Algo.C02 Require Import Model Spec ProofsChain ProofsLinear ProofsPrime ProofsQuad ProofsDouble.
 Import ListNotations.
 
 (** Separate chaining: full refinement, for every key/value type with a decidable equality, every
@@ -62,6 +62,27 @@ Definition C02_refines_quadratic_full : Prop :=
 Theorem C02_refines_quadratic_partial : prime_gap -> C02_refines_quadratic_full.
 Proof. intros G K V eqb eqv hash minlf maxlf He Hv cap Hc orc Ho ops. apply quad_refines; auto. Qed.
 
+(** Double hashing with soft deletion (after the fixes of D02, D03): same shape.  Proved in addition to
+    the items listed for quadratic probing: the step h2 computed by [probe] is never a multiple of the
+    prime size, so the m probes h1 + i*h2 are pairwise distinct, and (live + soft-deleted) < m always. *)
+Definition C02_refines_double_full : Prop :=
+  forall (K V : Type) (eqb : K -> K -> bool) (eqv : V -> V -> bool) (hash : K -> N) (minlf maxlf : lf),
+    (forall a b, eqb a b = true <-> a = b) ->
+    valid_soft minlf maxlf ->
+    forall (cap : nat), valid_cap_prime cap ->
+    forall (orc : nat -> nat -> list nat -> list nat), (forall i j l, Permutation (orc i j l) l) ->
+    forall ops : list (op K V),
+      outs_match K V (run K V eqb eqv hash minlf maxlf orc Double cap ops) (run_spec K V eqb eqv ops).
+
+Theorem C02_refines_double_partial : prime_gap -> C02_refines_double_full.
+Proof. intros G K V eqb eqv hash minlf maxlf He Hv cap Hc orc Ho ops. apply double_refines; auto. Qed.
+
+(** The instances of [prime_gap] for every size up to 2300 (six growths from the default capacity)
+    are checked by computation; beyond that it is Bertrand's postulate. *)
+Theorem C02_prime_gap_checked_upto_2300 :
+  forall n, 31 <= n <= 2300 -> exists p, n <= p < n + (n + 2) /\ is_prime p = true.
+Proof. exact prime_gap_upto_2300. Qed.
+
 (** Non-vacuity: one history on each of the four tables under the constant hash function
     (every key collides): put 40 keys (all tables grow at least once), delete and revive some. *)
 Definition ex_hist (kd : kind) : res (nat * list (option nat)) :=
@@ -110,3 +131,5 @@ Qed.
 Print Assumptions C02_refines_chain.
 Print Assumptions C02_refines_linear.
 Print Assumptions C02_refines_quadratic_partial.
+Print Assumptions C02_refines_double_partial.
+Print Assumptions C02_prime_gap_checked_upto_2300.
